@@ -148,10 +148,15 @@ def main():
                     if prm["loc"] == "header":
                         vals = [v for v in vals if v == v.strip() and "\t" not in v and all(ord(ch) < 128 for ch in v)]
                     cases = [("value", v) for v in vals] + ([("absent", None)] if prm["loc"] != "path" else [])
+                    if prm["loc"] == "form":
+                        cases.append(("absent+query-decoy", None))
                     for kind, v in cases:
                         values = dict(base)
                         values[prm["name"]] = v
                         rq = C12.build_request(m["verb"], tmpl, params, values)
+                        if kind == "absent+query-decoy":
+                            # the field is missing from the form body but a query argument carries its wire name
+                            rq["query"] = list(rq["query"]) + [(C12.wire(prm), vv(prm))]
                         for e in R.ENGINES:
                             if not h.usable(k, e):
                                 continue
